@@ -405,8 +405,11 @@ class InProtocolBase(ProtocolMixin):
         else:
             microsec = min(999999, int(round(float(microsec) * 1e6)))
 
-        return time(int(fields['hr']), int(fields['min']),
+        try:
+            return time(int(fields['hr']), int(fields['min']),
                                                    int(fields['sec']), microsec)
+        except ValueError:
+            raise ValidationError(string)
 
     def time_from_bytes(self, cls, string):
         if isinstance(string, six.binary_type):
@@ -430,7 +433,10 @@ class InProtocolBase(ProtocolMixin):
                 month = int(match.group('month'))
                 day = int(match.group('day'))
 
-                return date(year, month, day)
+                try:
+                    return date(year, month, day)
+                except ValueError:
+                    raise ValidationError(string)
 
             raise ValidationError(string)
 
@@ -461,7 +467,10 @@ class InProtocolBase(ProtocolMixin):
                                                    for x in ("tz_hr", "tz_min")]
                 if match.group("tz_hr").startswith('-'):
                     tz_min = -tz_min
-                tz = FixedOffset(tz_hr * 60 + tz_min, {})
+                try:
+                    tz = FixedOffset(tz_hr * 60 + tz_min, {})
+                except ValueError:
+                    raise ValidationError(string)
                 retval = _parse_datetime_iso_match(match, tz=tz)
                 if astz is not None:
                     retval = retval.astimezone(astz)
@@ -503,8 +512,11 @@ class InProtocolBase(ProtocolMixin):
         except ValueError as e:
             match = cls._offset_re.match(string)
             if match:
-                return date(int(match.group('year')),
+                try:
+                    return date(int(match.group('year')),
                             int(match.group('month')), int(match.group('day')))
+                except ValueError:
+                    raise ValidationError(string)
             else:
                 raise ValidationError(string,
                                          "%%r: %s" % repr(e).replace("%", "%%"))
@@ -521,11 +533,14 @@ class InProtocolBase(ProtocolMixin):
         except ValueError as e:
             match = cls._offset_re.match(string)
             if match:
-                return date(int(match.group('year')),
+                try:
+                    return date(int(match.group('year')),
                             int(match.group('month')), int(match.group('day')))
+                except ValueError:
+                    raise ValidationError(string)
             else:
-                # the message from ValueError is quite nice already
-                raise ValidationError(e.message, "%s")
+                raise ValidationError(string,
+                                         "%%r: %s" % repr(e).replace("%", "%%"))
 
     def duration_from_unicode(self, cls, string):
         match = _duration_re.match(string)
@@ -667,7 +682,10 @@ def _parse_datetime_iso_match(date_match, tz=None):
         # datetime can handle.
         usecond = min(999999, int(round(float(usecond) * 1e6)))
 
-    return datetime(year, month, day, hour, minute, second, usecond, tz)
+    try:
+        return datetime(year, month, day, hour, minute, second, usecond, tz)
+    except ValueError:
+        raise ValidationError(date_match.string)
 
 
 _dt_sec = lambda cls, val: \
